@@ -10,6 +10,11 @@ multipliers and message directions that `Model/Mac.lean` transcribes.
  * `malicious_check_zero`: operands of the multiplication, comparison with ZERO
  * `malicious_reveal`: what is sent to which side, the equality test, the returned sum
  * `eval_dy_prf`: `validate_record` precedes the openings
+ * EVERY `impl … Reveal<Ctx> for Sharing` of basics/reveal.rs with the function it delegates to (-> `MacReveal.lean`),
+   the module behind every context alias (context/mod.rs), no `Reveal` impl outside basics/reveal.rs
+ * the key schedule: `r` is drawn inside the per-batch constructor `Malicious::new` at a PRSS index that depends on the
+   batch index the `Batcher` passes, `BatchValidator::new` draws nothing, `validate` opens `r` to all helpers,
+   `r_share(record_id)` is the key of the record's batch
 """
 import re
 from extract import read, record, fail, rust_int
@@ -286,6 +291,165 @@ def extract():
            r"ctx\.validate_record\(record_id\)\.await\?;\s*let \(gr, z\)[^=]*= try_join\(\s*"
            r"reveal\(ctx\.narrow\(&Step::RevealR\), record_id, &sh_gr\),\s*reveal\(ctx\.narrow\(&Step::Revealz\), record_id, &y\),\s*\)\s*\.await\?;")
 
+    # ---------------------------------------------------------------- every `Reveal` impl (basics/reveal.rs)
+    rel = "protocol/basics/reveal.rs"
+    t = read(rel)
+    code = t.split("#[cfg(all(test, unit_test))]\nmod tests")[0]
+    impls = []   # (ctx, sharing, fn, opens)
+    heads = list(re.finditer(r"^impl<([^>]*)>\s*Reveal<\s*(\w+)\s*(?:<([^{;]*?)>)?\s*>\s*for\s+(\w+)\s*<", code, re.M))
+    loose = len(re.findall(r"^\s*(?:unsafe\s+)?impl\b\s*(?:<[^{;]*?>)?\s*(?:\w+::)*Reveal\s*<[^{;]*?\bfor\b", code, re.M))
+    if loose != len(heads) or not heads:
+        fail("c04.reveal.impl_count", f"{loose} `impl … Reveal<…> for …` items in {rel}, {len(heads)} parsed")
+    else:
+        record("c04.reveal.impl_count", rel, t, heads[0], len(heads))
+    for hm in heads:
+        generics, ctx, _ctxargs, sharing = hm.group(1), hm.group(2), hm.group(3), hm.group(4)
+        end = code.find("\n}\n", hm.end())
+        body = code[hm.end():end if end >= 0 else len(code)]
+        name = f"c04.reveal.impl.{ctx}.{sharing}"
+        if any(i[0] == ctx and i[1] == sharing for i in impls):
+            fail(name, "two impls for the same (context, sharing) pair")
+            continue
+        # a context that is a type PARAMETER of the impl (the blanket impl for BitDecomposed<S>)
+        params = [g.strip().split(":")[0].strip() for g in generics.split(",")]
+        generic_ctx = ctx in params
+        calls = re.findall(r"\b(semi_honest_reveal|malicious_reveal)\s*\(\s*ctx\s*,\s*record_id\s*,\s*excluded\s*,\s*(\w+)\s*\)\s*\.await", body)
+        per_el = re.findall(r"\bgeneric_reveal\s*\(\s*ctx\.narrow\([^;]*?\)\s*,\s*record_id\s*,\s*excluded\s*,\s*(\w+)\s*,?\s*\)\s*\.await", body, re.S)
+        other = re.findall(r"\b(\w*reveal\w*)\s*\(", body)
+        other = [o for o in other if o not in ("generic_reveal", "semi_honest_reveal", "malicious_reveal")]
+        fn, opens = "unknown", "unknown"
+        if len(calls) == 1 and not per_el and not other:
+            fn = "twoCopy" if calls[0][0] == "malicious_reveal" else "oneCopy"
+            arg = calls[0][1]
+            if arg == "self":
+                opens = "self"
+            elif arg == "x_share" and re.search(r"let x_share = self\.x\(\)\.access_without_downgrade\(\);", body):
+                opens = "x"
+            else:
+                fail(name, f"unexpected opened value `{arg}`")
+        elif len(per_el) == 1 and not calls and not other and generic_ctx:
+            # body calls the free function `generic_reveal` (= `S::generic_reveal`) once per element, same ctx type
+            fn, opens = "perElement", "elements"
+            if not re.search(r"S:\s*Reveal<C>", body) or per_el[0] != "bit":
+                fail(name, "the per-element impl no longer delegates to `S: Reveal<C>` for each element")
+        else:
+            fail(name, f"cannot tell which opening the impl delegates to (calls: {calls + per_el + other})")
+        # generic_reveal is the ONLY method an impl defines (reveal / partial_reveal are the trait's provided methods)
+        defined = re.findall(r"\bfn\s+(\w+)\s*<", body)
+        if defined != ["generic_reveal"]:
+            fail(name, f"impl defines {defined}, expected only generic_reveal")
+        record(name, rel, t, hm, {"ctx": ctx, "sharing": sharing, "fn": fn, "opens": opens, "generic_ctx": generic_ctx})
+        impls.append((ctx if not generic_ctx else "*", sharing, fn, opens))
+    # the provided methods of the trait and the free wrappers all end in `generic_reveal`
+    expect("c04.reveal.trait_reveal", rel, t,
+           r"fn reveal<'fut>\(.*?\{\s*(?://[^\n]*\n\s*)*self\.generic_reveal\(ctx, record_id, None\)\s*\.map_ok\(Option::unwrap\)\s*\}")
+    expect("c04.reveal.trait_partial_reveal", rel, t,
+           r"fn partial_reveal<'fut>\(.*?\{\s*self\.generic_reveal\(ctx, record_id, Some\(excluded\)\)\s*\}")
+    expect("c04.reveal.wrappers", rel, t,
+           r"S::reveal\(v, ctx, record_id\)\s*\}.*?S::partial_reveal\(v, ctx, record_id, excluded\)\s*\}.*?S::generic_reveal\(v, ctx, record_id, excluded\)\s*\}")
+    # the semi-honest opening (what a malicious-mode impl must NOT use): a single copy, from the left peer
+    expect("c04.reveal.semi_honest_one_copy", rel, t,
+           r"pub async fn semi_honest_reveal<.*?if Some\(ctx\.role\(\)\.peer\(Direction::Right\)\) != excluded \{\s*"
+           r"ctx\.send_channel::<[^;]*?>\(ctx\.role\(\)\.peer\(Direction::Right\)\)\s*\.send\(record_id, left\)\s*\.await\?;\s*\}.*?"
+           r"let share: [^=]*= ctx\s*\.recv_channel\(ctx\.role\(\)\.peer\(Direction::Left\)\)\s*\.receive\(record_id\)\s*\.await\?;\s*"
+           r"Ok\(Some\(share \+ left \+ right\)\)")
+    # no `Reveal` impl anywhere else
+    import os
+    from extract import SRC
+    strays = []
+    for root, _dirs, files in os.walk(SRC):
+        for fn_ in files:
+            if not fn_.endswith(".rs"):
+                continue
+            pth = os.path.join(root, fn_)
+            r_ = os.path.relpath(pth, SRC)
+            if r_ == rel:
+                continue
+            with open(pth) as fh:
+                src_ = fh.read()
+            if re.search(r"^\s*(?:unsafe\s+)?impl\b\s*(?:<[^{;]*?>)?\s*(?:\w+::)*Reveal\s*<[^{;]*?\bfor\b", src_, re.M):
+                strays.append(r_)
+    if strays:
+        fail("c04.reveal.no_other_impls", "`Reveal` is also implemented in " + ", ".join(sorted(strays)))
+    else:
+        record("c04.reveal.no_other_impls", rel, t, re.search(r"pub trait Reveal<C: Context>", t), 0)
+    # the module behind each context alias (context/mod.rs)
+    relc = "protocol/context/mod.rs"
+    tc = read(relc)
+    ctx_mod = {}
+    for m_ in re.finditer(r"pub use (\w+)::(\w+) as (\w+Context);", tc):
+        ctx_mod[m_.group(3)] = (m_.group(1), m_)
+    for m_ in re.finditer(r"pub type (\w+Context)<[^>]*> = (\w+)::(\w+)<[^;]*>;", tc):
+        ctx_mod[m_.group(1)] = (m_.group(2), m_)
+    ctx_rows = []
+    for ctx in sorted({i[0] for i in impls if i[0] != "*"}):
+        if ctx not in ctx_mod:
+            fail("c04.reveal.ctx." + ctx, f"context alias not found in {relc}")
+            ctx_rows.append((ctx, "unknown"))
+        else:
+            record("c04.reveal.ctx." + ctx, relc, tc, ctx_mod[ctx][1], ctx_mod[ctx][0])
+            ctx_rows.append((ctx, ctx_mod[ctx][0]))
+    # every upgraded malicious-mode alias of context/mod.rs (whether or not reveal.rs mentions it)
+    all_mal = sorted(c for c, (mod_, _) in ctx_mod.items() if mod_ in ("malicious", "dzkp_malicious") and "Upgraded" in c)
+
+    # ---------------------------------------------------------------- the key schedule (validator.rs, batcher.rs, malicious.rs)
+    rel = "protocol/context/validator.rs"
+    t = read(rel)
+    key_per_batch = False
+    mnew = re.search(r"pub fn new\(ctx: MaliciousContext<'a, B>, offset: usize\) -> Self \{(.*?)\n    \}\n", t, re.S)
+    if not mnew:
+        fail("c04.key.drawn_in_batch_constructor", "`Malicious::new(ctx, offset)` not found (the per-batch constructor no longer has this shape)")
+    else:
+        body = mnew.group(1)
+        d = re.search(r"let r_share: Replicated<F::ExtendedField> = ctx\s*\.prss\(\)\s*\.generate\(Self::r_share_record\((\w+), TOTAL_CALLS_TO_PRSS\)\);", body)
+        st = re.search(r"Self \{\s*r_share,\s*accumulator,\s*validate_ctx,\s*offset,\s*\}", body)
+        if not d or not st:
+            fail("c04.key.drawn_in_batch_constructor", "`Malicious::new` does not draw `r_share` itself and store it")
+        elif d.group(1) != "offset":
+            fail("c04.key.drawn_in_batch_constructor", f"r is drawn at the index of `{d.group(1)}`, not of the batch offset")
+        else:
+            key_per_batch = True
+            record("c04.key.drawn_in_batch_constructor", rel, t, mnew, True)
+    ctor_ok = False
+    bnew = re.search(r"impl<'a, F: ExtendableField, B: ShardBinding> BatchValidator<'a, F, B> \{.*?pub fn new\(ctx: MaliciousContext<'a, B>\) -> Self \{(.*?)\n    \}\n", t, re.S)
+    if not bnew:
+        fail("c04.key.batch_constructor", "`BatchValidator::new` not found")
+    else:
+        body = bnew.group(1)
+        c = re.search(r"Box::new\(move \|batch_index\| Malicious::new\(ctx\.clone\(\), batch_index\)\)", body)
+        if not c:
+            fail("c04.key.batch_constructor", "the batch constructor is not `|batch_index| Malicious::new(ctx.clone(), batch_index)`")
+        elif re.search(r"prss\(\)|\.generate\(|\.zero\(|r_share", body):
+            fail("c04.key.batch_constructor", "`BatchValidator::new` draws randomness / handles a key itself (a key shared by all batches)")
+        else:
+            ctor_ok = True
+            record("c04.key.batch_constructor", rel, t, bnew, True)
+    # no other way to build a `Malicious` (a second constructor taking a ready-made key)
+    ctors = re.findall(r"fn (\w+)\([^)]*\)\s*->\s*Self\s*\{", t.split("#[cfg(all(test, unit_test))]")[0])
+    n_self_lit = len(re.findall(r"Self \{\s*r_share", t))
+    if n_self_lit != 1:
+        fail("c04.key.single_constructor", f"{n_self_lit} places build a `Malicious` value")
+    else:
+        record("c04.key.single_constructor", rel, t, re.search(r"Self \{\s*r_share", t), ctors)
+    opens_key = expect("c04.key.validate_opens_r", rel, t,
+                       r"let r = <F as ExtendableField>::ExtendedField::from_array\(\s*&malicious_reveal\(\s*narrow_ctx,\s*"
+                       r"Self::reveal_check_zero_record\(self\.offset\),\s*None,\s*&self\.r_share,\s*\)") is not None
+    expect("c04.key.validate_consumes_batch", rel, t, r"pub\(crate\) async fn validate\(self\) -> Result<\(\), Error>")
+    relb = "protocol/context/batcher.rs"
+    tb = read(relb)
+    idx_ok = expect("c04.key.batcher_passes_batch_index", relb, tb,
+                    r"batch: \(self\.batch_constructor\)\(self\.first_batch \+ self\.batches\.len\(\)\),") is not None
+    expect("c04.key.batch_of_record", relb, tb,
+           r"let batch_index = usize::from\(record_id\) / self\.records_per_batch;")
+    relm = "protocol/context/malicious.rs"
+    tm_ = read(relm)
+    expect("c04.key.r_share_of_record", relm, tm_,
+           r"fn r_share\(&self, record_id: RecordId\) -> Replicated<F::ExtendedField> \{\s*self\.with_batch\(record_id, \|v\| v\.r_share\(\)\.clone\(\)\)\s*\}")
+    expect("c04.key.with_batch", relm, tm_,
+           r"let state = batch\.get_batch\(record_id\);\s*\(action\)\(&mut state\.batch\)")
+    key_per_batch = key_per_batch and ctor_ok and idx_ok
+
+
     def pair(p):
         return f"(.{p[0]}, .{p[1]})"
 
@@ -343,6 +507,44 @@ def extract():
     L.append("/-- `malicious_reveal`: the component sent to the left / to the right peer is the sender's right / left one -/")
     L.append(f"def revealToLeftSendsRight : Bool := {'true' if to_left == 'right' else 'false'}")
     L.append(f"def revealToRightSendsLeft : Bool := {'true' if to_right == 'left' else 'false'}")
+    L.append("/-- the MAC key `r` is drawn inside the per-batch constructor `Malicious::new(ctx, batch_index)` at the PRSS index")
+    L.append("`r_share_record(batch_index, …)` (false: one key for all batches of a validator) -/")
+    L.append(f"def keyPerBatch : Bool := {'true' if key_per_batch else 'false'}")
+    L.append("/-- `Malicious::validate` opens the batch key `r` to every helper (`malicious_reveal(…, None, &self.r_share)`) -/")
+    L.append(f"def validateOpensKey : Bool := {'true' if opens_key else 'false'}")
     L.append("")
     L.append("end IpaVerif.Generated.Mac")
-    return {"MacConsts.lean": "\n".join(L) + "\n"}
+
+    R = []
+    R.append("/-! GENERATED by tools/extract.py (plugin c04_mac) — do not edit. -/")
+    R.append("namespace IpaVerif.Generated.MacReveal")
+    R.append("")
+    R.append("/-- what an `impl Reveal<Ctx> for Sharing` delegates to: `malicious_reveal` (two copies, compared),")
+    R.append("`semi_honest_reveal` (one copy, from the left peer), the element type's own impl (`BitDecomposed<S>`) -/")
+    R.append("inductive RevealFn where")
+    R.append("  | twoCopy | oneCopy | perElement | unknown")
+    R.append("  deriving DecidableEq, Repr")
+    R.append("")
+    R.append("/-- `ctx = \"*\"`: the impl is generic in the context -/")
+    R.append("structure RevealImpl where")
+    R.append("  ctx : String")
+    R.append("  sharing : String")
+    R.append("  fn : RevealFn")
+    R.append("  opens : String")
+    R.append("  deriving DecidableEq, Repr")
+    R.append("")
+    R.append("/-- every `impl … Reveal<Ctx> for Sharing` of protocol/basics/reveal.rs, in source order -/")
+    R.append("def revealImpls : List RevealImpl := [")
+    R.append(",\n".join(f'  ⟨"{c}", "{sh}", .{f}, "{o}"⟩' for (c, sh, f, o) in impls))
+    R.append("]")
+    R.append("")
+    R.append("/-- (context alias, module of protocol/context that defines it) for the contexts named by the impls -/")
+    R.append("def contextModules : List (String × String) := [")
+    R.append(",\n".join(f'  ("{c}", "{m_}")' for (c, m_) in ctx_rows))
+    R.append("]")
+    R.append("")
+    R.append("/-- every upgraded context alias of protocol/context/mod.rs that lives in a malicious-mode module -/")
+    R.append("def upgradedMaliciousContexts : List String := [" + ", ".join(f'"{c}"' for c in all_mal) + "]")
+    R.append("")
+    R.append("end IpaVerif.Generated.MacReveal")
+    return {"MacConsts.lean": "\n".join(L) + "\n", "MacReveal.lean": "\n".join(R) + "\n"}
